@@ -133,6 +133,8 @@ func dataBytes(tok string) (b []byte, actual int) {
 			z[len(z)-1] ^= 0x01
 		case "trail":
 			z = append(z, 0xDE, 0xAD, 0x00)
+		case "midflip": // a valid frame mutated in transit: one bit of the deflate data flipped
+			z[2+(len(z)-6)/2] ^= 0x10
 		default:
 			panic("bad variant " + tok)
 		}
@@ -373,7 +375,7 @@ func enumFrames(r *vrt.R, cfg cfgSpec, emit func(*caseSpec) bool) bool {
 		}
 		datas = append(datas, "z:65536")
 		for _, n := range dedupInts([]int{t + 1, 300, 65536}, func(int) bool { return true }) {
-			for _, v := range []string{"cut1", "noadler", "half", "badadler", "trail"} {
+			for _, v := range []string{"cut1", "noadler", "half", "badadler", "trail", "midflip"} {
 				datas = append(datas, fmt.Sprintf("z:%d:%s", n, v))
 			}
 		}
